@@ -24,7 +24,7 @@ def suites(tier):
         jobs.append(dict(id=jid("build", cfg), func="zzH_C06_build", cfg=cfg))
     jobs.append(dict(id="output", func="zzH_C07_output", cfg={}))
     for colored in (0, 1):
-        for kind in ((2,) if q else (2, 0)):
-            cfg = dict(colored=colored, bytes=kind, nmax=(3 if kind == 2 else 2) if q else (4 if kind == 2 else 3))
+        for kind in ((2,) if q else (2, 1, 0)):
+            cfg = dict(colored=colored, bytes=kind, nmax=(3 if kind == 2 else 2) if q else (3 if kind == 2 else 2))
             jobs.append(dict(id=jid("ansi", cfg), func="zzH_C07_ansi", cfg=cfg))
     return [src_suite("src", jobs)]
